@@ -52,6 +52,28 @@ def pt(x, y, z, *, t, c=0):
     return x + 2 * z - c + t
 
 
+# twins (ParamAlg: P2b, P3b, PTb): leaves that the library's == cannot tell apart but that compute other values -
+# same function code and keyword names; the difference lives in an array keyword below the comparison tolerance
+# (2-D leaf) or in a closure cell (3-D and time-dependent leaf, the usual "factory of sources" style)
+def p2r(x, y, a=0, r0=(0.0, 0.0)):
+    return x + 2 * y - a + 2 * (np.sign(r0[0]) - 1)
+
+
+def make_p3(off):
+    def p3c(x, y, z, b=0):
+        return x - y + z + b + off
+    return p3c
+
+
+def make_pt(off):
+    def ptc(x, y, z, *, t, c=0):
+        return x + 2 * z - c + t + off
+    return ptc
+
+
+TWINS = {"P2b", "P3b", "PTb"}
+
+
 # leaves used when an expression is handed to the solver: a vector potential, a scalar ramp
 def vecpot3(x, y, z, *, B=0.1):
     return 0.5 * B * np.stack([-y, x, np.zeros_like(x)], axis=1)
@@ -79,6 +101,11 @@ def make_leaf(tdgl, k, flavour="exact"):
 
         m = sys.modules["__main__"] if flavour == "main" else importlib.import_module(flavour.split(":", 1)[1])
         return {"P2": lambda: P(m.p2, a=2), "P3": lambda: P(m.p3, b=1), "PT": lambda: P(m.pt, time_dependent=True, c=1)}[k]()
+    if flavour == "twin":
+        return {"P2": lambda: P(p2r, a=2, r0=np.array([1e-9, 0.0])), "P2b": lambda: P(p2r, a=2, r0=np.array([-1e-9, 0.0])),
+                "P3": lambda: P(make_p3(0.0), b=1), "P3b": lambda: P(make_p3(2.0), b=1),
+                "PT": lambda: P(make_pt(0.0), time_dependent=True, c=1),
+                "PTb": lambda: P(make_pt(-3.0), time_dependent=True, c=1)}[k]()
     if flavour == "exact":
         if k == "P2":
             return P(p2, a=2)
@@ -98,6 +125,8 @@ def make_leaf(tdgl, k, flavour="exact"):
 
 def build(tdgl, tree, flavour="exact"):
     """The expression built with the real classes, through the Python operators."""
+    if flavour == "exact" and kinds(tree) & TWINS:
+        flavour = "twin"      # every leaf of a twinned expression comes from the twin-capable definitions
     if tree["k"] != "N":
         return make_leaf(tdgl, tree["k"], flavour)
     left = build(tdgl, tree["l"], flavour)
